@@ -195,10 +195,28 @@ def make_stream(ss):
 _JOURNAL = {}
 
 
+class DuckGenerator:
+    """A user-written generator that only implements the interface get_next_id() -> str (no IdGenerator base)."""
+
+    def __init__(self):
+        self._n = 0
+        env = seams.ENV
+        if env is not None:
+            env.rec.register(self)
+
+    def get_next_id(self):
+        v = str(self._n)
+        self._n += 1
+        env = seams.ENV
+        return env.rec.draw(self, v, seams.cur_ctx()) if env is not None else v
+
+
 def make_generator(cfg):
     """The shipped IdGenerator, or (genclass 'journal') a user-style subclass of it: overrides get_next_id,
     keeps a journal of what it issued and has a length - so it is falsy while fresh."""
     from gherkin.stream.id_generator import IdGenerator
+    if cfg.get("genclass") == "duck":
+        return DuckGenerator()
     if cfg.get("genclass") != "journal":
         return IdGenerator()
     cls = _JOURNAL.get(IdGenerator)
